@@ -2,10 +2,10 @@
 #include "vf_common.h"
 #include <execinfo.h>
 
-volatile uint64_t    vf_cur_op = 0;
-volatile const char* vf_cur_what = "init";
-volatile int         vf_in_harness = 0;
-volatile uintptr_t   vf_touch_lo = 0, vf_touch_hi = 0;
+__thread volatile uint64_t    vf_cur_op = 0;
+__thread volatile const char* vf_cur_what = "init";
+__thread volatile int         vf_in_harness = 0;
+__thread volatile uintptr_t   vf_touch_lo = 0, vf_touch_hi = 0;
 void (*vf_result_body)(FILE* f) = NULL;
 const char* vf_crash_refutes = "";
 
